@@ -125,6 +125,10 @@ def run(ck: Check):
                     (cfg["connections"] != "random-unique" or 2 ** cfg["tree_depth"] <= P * (P - 1) // 2)
                 record(f"conv{dims}d-ctor", dict(cfg, bad=bad), dom, got)
                 conv_rows.append((dims, cfg, got[0] == "returned"))
+        # 3-D non-cubic receptive fields: the stride must not exceed ANY extent
+        for rf3, st in (((3, 3, 2), 3), ((2, 3, 3), 3), ((3, 2, 3), 3), ((4, 4, 3), 4), ((2, 2, 3), 2), ((3, 3, 2), 2)):
+            got = outcome(lambda: LogicConv3d(in_dim=(5, 5, 5), device="cpu", tree_depth=1, receptive_field_size=rf3, stride=st, num_kernels=2))
+            record("conv3d-ctor", {"receptive_field_size": list(rf3), "stride": st, "bad": "stride>rf-axis"}, st <= min(rf3), got)
         # default padding must construct
         got = outcome(lambda: LogicConv3d(in_dim=3, device="cpu", tree_depth=1, receptive_field_size=2, num_kernels=2))
         record("conv3d-ctor", {"bad": "default-padding"}, True, got)
